@@ -19,7 +19,8 @@ RULE = ("case = (server kind: threaded / thread-pool of 4 / forking; transport: 
         "state, a reference, graceful or abrupt leave) with hostile clients built from a grammar of byte-level actions: random "
         "bytes, valid frame + garbage, absurd / zero / off-by-one length fields, compression flag with corrupt zlib data, "
         "well-framed junk, well-formed non-messages, a valid request truncated at byte k followed by RST or half-close, wrong "
-        "or partial magic word, a raw request naming an object id harvested from ANOTHER client's connection, hold-open). "
+        "or partial magic word, a raw request naming an object id harvested from ANOTHER client's connection, a client that claims to own the class the "
+        "well-behaved clients lend (same name and identifier) and describes it wrongly, hold-open). "
         "oracle: every good client keeps getting its own token, its own state and a working reference; tokens pairwise "
         "distinct; a foreign id is answered with an exception; after EACH hostile client a fresh good client connects and "
         "completes a call; the server is still accepting at the end; in a third of the cases the service's disconnect hook takes "
@@ -142,6 +143,10 @@ def run_scenario(case):
                 if v != g["val"]:
                     problems.append(("state-leak", "client sees state it did not put", [v, g["val"]]))
                 own_config(c, "later")
+                if case["server"] != "forking" or True:
+                    w = c.root.build(servers.Widget, tok)
+                    if w != "widget:%s" % tok:
+                        problems.append(("class-leak", "a class lent by this client was not the one the server called", [w, tok]))
                 if list(g["ref"]) != [g["tok"], "mine"]:
                     problems.append(("reference-broken", "reference no longer resolves to its object", None))
                 if g["hostile_since"]:
@@ -171,6 +176,36 @@ def run_scenario(case):
                 if kind == "wrong-magic":
                     s = fx.raw_socket(magic=False)
                     s.sendall([b"Ma6iX", b"Ma", b"\0\0\0\0\0", b"XXXXXXXXXXXX"][p % 4])
+                elif kind == "impostor-class":
+                    # a client that claims to own the very class well-behaved clients lend (same name, same identifier) and
+                    # describes it wrongly: whatever the server learns from it must stay on ITS connection
+                    from rpyc.lib import get_id_pack
+                    s = fx.raw_socket()
+                    s.settimeout(servers.BOUND)
+
+                    def rd():
+                        hdr = _recv_exact(s, 5)
+                        n, flag = struct.unpack(">IB", hdr)
+                        body = _recv_exact(s, n + 1)[:-1]
+                        return rc.load(zlib.decompress(body) if flag else body, strict_shortest=False)
+
+                    def wr(msg):
+                        s.sendall(rc.frame(rc.dump(msg)))
+                    wr((rc.MSG_REQUEST, 1, (rc.HANDLERS["GETROOT"], (rc.LABEL_TUPLE, ()))))
+                    root = rd()[2]
+                    idp = tuple(get_id_pack(servers.Widget))
+                    wr((rc.MSG_REQUEST, 2, (rc.HANDLERS["CALLATTR"], (rc.LABEL_TUPLE, (
+                        (rc.LABEL_LOCAL_REF, root[1]), (rc.LABEL_VALUE, "build"),
+                        (rc.LABEL_TUPLE, ((rc.LABEL_REMOTE_REF, idp), (rc.LABEL_VALUE, "x"))), (rc.LABEL_VALUE, ()))))))
+                    for _ in range(6):
+                        m_ = rd()
+                        if m_[0] == rc.MSG_REQUEST and m_[2][0] == rc.HANDLERS["INSPECT"]:
+                            wr((rc.MSG_REPLY, m_[1], (rc.LABEL_VALUE, (("bogus", None), ("__len__", None)))))
+                            stats["impostor-described-the-class"] = stats.get("impostor-described-the-class", 0) + 1
+                        elif m_[0] == rc.MSG_REQUEST:
+                            wr((rc.MSG_EXCEPTION, m_[1], (("builtins", "TypeError"), ("no",), (), "tb")))
+                        elif m_[1] == 2:
+                            break
                 elif kind == "foreign-id":
                     victim = next(iter(good.values()), None)
                     s = fx.raw_socket()
@@ -285,7 +320,7 @@ def check(case, rec):
 
 
 def cases(kinds):
-    hostile = st.tuples(st.just("hostile"), st.sampled_from(HOSTILE + ["wrong-magic", "foreign-id", "foreign-id"]), st.integers(0, 1000),
+    hostile = st.tuples(st.just("hostile"), st.sampled_from(HOSTILE + ["wrong-magic", "foreign-id", "foreign-id", "impostor-class", "impostor-class"]), st.integers(0, 1000),
                         st.sampled_from(["close", "close", "abrupt", "abrupt", "half", "hold"])).map(list)
     step = st.one_of(st.tuples(st.just("gopen"), st.integers(0, 2)).map(list), st.just(["gopen2", 1, 2]), st.tuples(st.just("gcheck"), st.integers(0, 2)).map(list),
                      st.tuples(st.just("gclose"), st.integers(0, 2), st.booleans()).map(list), hostile, hostile)
